@@ -71,6 +71,7 @@ class FakeLink:
         self.stopped = False
         self.bell_override: Optional[Callable[[dict, int], LinkBell]] = None
         self.validate_all = False
+        self.validate = True
 
     def bump(self, k: str, n: int = 1) -> None:
         self.counters[k] = self.counters.get(k, 0) + n
@@ -95,7 +96,7 @@ class FakeLink:
     def on_put(self, node_id: int, request: Any) -> None:
         # a real stack converts to the qlink-1.0 interface; it must be accepted
         # (remote-state-preparation requests have no qlink-1.0 form; only C11 insists on one)
-        if self.validate_all or request.type != RequestType.R:
+        if self.validate and (self.validate_all or request.type != RequestType.R):
             request_to_qlink_1_0(request)
         self.puts.append((node_id, request))
         remote = request.remote_node_id
